@@ -71,6 +71,41 @@ func (h *Hist) run(toks string, f func() string) string {
 		return f()
 	}()
 	h.ops = append(h.ops, toks)
+	// distribution of what the stream exercises (goes into the evidence): operation kinds, result kinds, error types, sizes
+	opKind := toks
+	if i := strings.IndexByte(toks, ' '); i >= 0 {
+		opKind = toks[:i]
+	}
+	dist["op:"+opKind]++
+	switch {
+	case strings.HasPrefix(res, "ok"):
+		dist["result:ok"]++
+	case strings.HasPrefix(res, "E"):
+		dist["result:error"]++
+		et := res
+		if i := strings.IndexByte(res, ','); i >= 0 {
+			et = res[:i]
+		}
+		dist["errtype:"+et]++
+	case res == "PANIC":
+		dist["result:panic"]++
+	default:
+		dist["result:other"]++
+	}
+	payload := toks
+	if i := strings.LastIndexByte(toks, ' '); i >= 0 {
+		payload = toks[i+1:] // the input / value token (x<hex>: two characters per byte)
+	}
+	switch n := len(payload) / 2; {
+	case n < 40:
+		dist["size:<40"]++
+	case n < 200:
+		dist["size:40-199"]++
+	case n < 2000:
+		dist["size:200-1999"]++
+	default:
+		dist["size:>=2000"]++
+	}
 	parts := []string{res}
 	for k, u := range h.urls {
 		o := func() (s string) {
@@ -99,6 +134,7 @@ func (h *Hist) run(toks string, f func() string) string {
 	return res
 }
 
+var dist = map[string]int{}
 var lastPanic string
 var progress uint64
 
